@@ -335,11 +335,11 @@ class C20(Property):
         elif oc == 'written' and mine[1] != theirs:
             where, detail = localise(mine[1], theirs)
             if where == 'set-order' and same_inventory(mine[1], theirs):
-                # only the order of the sets differs (free after the origin sets): not a trace of an object/value
+                # only the order of the sets differs: every order is a valid file, but the rejected call has still left
+                # a trace in the bytes (tolerated until the repair of the registry; reported since)
                 labels.append('set-order-differs-only')
-            else:
-                viol.append(Violation(f"trace-in-file/{where.split(':')[0]}/{cls}",
-                                      f"{where}: {detail}; rejected calls {bad_kinds}"))
+            viol.append(Violation(f"trace-in-file/{where.split(':')[0]}/{cls}",
+                                  f"{where}: {detail}; rejected calls {bad_kinds}"))
         return Result(viol, labels, nt, mine[0], sample={'rejected': bad_kinds,
                                                          'ops': [o['t'] + ('!' if o.get('bad') else '') for o in ops]})
 
